@@ -1,4 +1,202 @@
 ------------------------------- MODULE MasaOracle -------------------------------
-(* placeholder: the numeric oracle (sections 4 of DESIGN.md) is developed in MasaOracle proper *)
-OracleAccept(p, sol, par, vec, fn, sig, args, cb, ret) == TRUE
+(***************************************************************************************)
+(* The value oracle: what a provided evaluator must return, as a function of the       *)
+(* abstract state (current parameters, vectors) and the arguments of the call.         *)
+(*   field definitions  -- the documented manufactured fields, as jets                 *)
+(*   governing operator -- MasaPDE, applied to those jets                               *)
+(* Source terms are never transcribed from MASA: they are always derived.              *)
+(*                                                                                     *)
+(* par: [name -> hex-float string], args = <<scalars, direction index, #index args>>,  *)
+(* cb = <<>> or <<kind, c0, c1, c2>> (the caller-supplied function, by name).          *)
+(***************************************************************************************)
+EXTENDS MasaPDE, Json, IOUtils
+
+Has(par, k) == k \in DOMAIN par
+PN(par, k)  == NFromStr(par[k])
+P0(par, k)  == IF Has(par, k) THEN NFromStr(par[k]) ELSE N0
+
+\* ------------------------------------------------------------------ coordinates
+\* scalar arguments: the spatial coordinates in order, then t when there is one more than `nsp`
+\* coordinates that are not arguments are the constant 0 (they cannot occur in the fields)
+Coords(a, nsp) ==
+  LET n == Len(a)
+      sp(i) == IF i <= n /\ i <= nsp THEN JVar(i, NFromStr(a[i])) ELSE JConst(N0)
+  IN  [x |-> sp(1), y |-> sp(2), z |-> sp(3),
+       t |-> IF n > nsp THEN JVar(4, NFromStr(a[n])) ELSE JConst(N0)]
+
+\* ------------------------------------------------------------------ Roy-type fields
+\* phi = phi_0 + sum_c phi_c trig_c(a_phic pi c / L)   (a term is present iff its amplitude is a parameter)
+Trig(kind, a) == IF kind = "sin" THEN JSin(a) ELSE JCos(a)
+RoyTerm(par, f, c, kind, V, L) ==
+  IF Has(par, f \o "_" \o c)
+  THEN JScale(PN(par, f \o "_" \o c), Trig(kind, JScale(NDiv(NMul(PN(par, "a_" \o f \o c), NPi), L), V)))
+  ELSE JConst(N0)
+RoyField(par, f, kx, ky, kz, kt, C) ==
+  LET L == PN(par, "L") IN
+  JAdd(JAdd(JConst(P0(par, f \o "_0")), JAdd(RoyTerm(par, f, "x", kx, C.x, L), RoyTerm(par, f, "y", ky, C.y, L))),
+       JAdd(RoyTerm(par, f, "z", kz, C.z, L), RoyTerm(par, f, "t", kt, C.t, L)))
+\* euler.page / cns.page (Roy et al.): which trigonometric function goes with which coordinate
+Rho(par, C) == RoyField(par, "rho", "sin", "cos", "sin", "sin", C)
+UU(par, C)  == RoyField(par, "u",   "sin", "cos", "cos", "cos", C)
+VV(par, C)  == RoyField(par, "v",   "cos", "sin", "sin", "sin", C)
+WW(par, C)  == RoyField(par, "w",   "sin", "sin", "cos", "cos", C)
+PP(par, C)  == RoyField(par, "p",   "cos", "sin", "cos", "cos", C)
+CartFields(par, C) == [rho |-> Rho(par, C), u |-> <<UU(par, C), VV(par, C), WW(par, C)>>, p |-> PP(par, C)]
+
+\* ------------------------------------------------------------------ heat (heat.page eq. manufactured01)
+HeatArg(par, ks, S, kt, T) == JAdd(JScale(P0(par, ks), S), JScale(P0(par, kt), T))
+HeatT(par, C) ==
+  JMul(JMul(JCos(HeatArg(par, "A_x", C.x, "A_t", C.t)), JCos(HeatArg(par, "B_y", C.y, "B_t", C.t))),
+       JMul(JCos(HeatArg(par, "C_z", C.z, "C_t", C.t)), JCos(JScale(P0(par, "D_t"), C.t))))
+HeatSource(par, C) ==
+  LET T  == HeatT(par, C)
+      K  == JPoly(<<P0(par, "k_0"), P0(par, "k_1"), P0(par, "k_2")>>, T)
+      CP == JPoly(<<P0(par, "cp_0"), P0(par, "cp_1"), P0(par, "cp_2")>>, T)
+  IN  HeatResidual(P0(par, "rho"), CP, K, T)
+
+\* ------------------------------------------------------------------ axisymmetric fields (r = x, z = y)
+AxiTerm(par, amp, freq, kind, V) ==
+  JScale(PN(par, amp), Trig(kind, JScale(NDiv(NMul(PN(par, freq), NPi), PN(par, "L")), V)))
+AxiFields(sol, par, C) ==
+  LET one == JConst(N1)
+      cosr(f) == Trig("cos", JScale(NDiv(NMul(PN(par, f), NPi), PN(par, "L")), C.x))
+  IN
+  IF sol = "axisymmetric_navierstokes_compressible" THEN
+    [rho |-> JAdd(JConst(PN(par, "rho_0")), JMul(AxiTerm(par, "rho_1", "a_rhor", "cos", C.x), Trig("sin", JScale(NDiv(NMul(PN(par, "a_rhoz"), NPi), PN(par, "L")), C.y)))),
+     p   |-> JAdd(JConst(PN(par, "p_0")), JMul(AxiTerm(par, "p_1", "a_pr", "sin", C.x), Trig("cos", JScale(NDiv(NMul(PN(par, "a_pz"), NPi), PN(par, "L")), C.y)))),
+     u   |-> <<JMul(JScale(PN(par, "u_1"), JSub(cosr("a_ur"), one)), Trig("sin", JScale(NDiv(NMul(PN(par, "a_uz"), NPi), PN(par, "L")), C.y))),
+               JAdd(JConst(PN(par, "w_0")), JMul(AxiTerm(par, "w_1", "a_wr", "cos", C.x), Trig("sin", JScale(NDiv(NMul(PN(par, "a_wz"), NPi), PN(par, "L")), C.y)))),
+               JConst(N0)>>]
+  ELSE
+    LET tt(amp, freq, kind) == IF Has(par, amp) THEN AxiTerm(par, amp, freq, kind, C.t) ELSE JConst(N0) IN
+    [rho |-> JAdd(JAdd(JConst(PN(par, "rho_0")), AxiTerm(par, "rho_r", "a_rhor", "cos", C.x)),
+                  JAdd(AxiTerm(par, "rho_z", "a_rhoz", "sin", C.y), tt("rho_t", "a_rhot", "sin"))),
+     p   |-> JAdd(JAdd(JConst(PN(par, "p_0")), AxiTerm(par, "p_r", "a_pr", "sin", C.x)),
+                  JAdd(AxiTerm(par, "p_z", "a_pz", "cos", C.y), tt("p_t", "a_pt", "cos"))),
+     u   |-> <<JMul(JScale(PN(par, "u_r"), JSub(cosr("a_ur"), one)),
+                    IF Has(par, "u_t") THEN JAdd(AxiTerm(par, "u_z", "a_uz", "sin", C.y), tt("u_t", "a_ut", "cos"))
+                    ELSE AxiTerm(par, "u_z", "a_uz", "sin", C.y)),
+               JAdd(JAdd(JConst(PN(par, "w_0")), AxiTerm(par, "w_r", "a_wr", "cos", C.x)),
+                    JAdd(AxiTerm(par, "w_z", "a_wz", "sin", C.y), tt("w_t", "a_wt", "cos"))),
+               JConst(N0)>>]
+
+\* ------------------------------------------------------------------ Laplace, Burgers (laplace.page, burgers.page)
+LaplacePhi(par, C) ==
+  LET Lx == JConst(PN(par, "Lx")) Ly == JConst(PN(par, "Ly"))
+  IN  JAdd(JMul(JSq(JSub(Ly, C.y)), JSq(JAdd(Ly, C.y))), JMul(JSq(JSub(Lx, C.x)), JSq(JAdd(Lx, C.x))))
+\* burgers.page eq. manufactured_2d_trans; the two-argument exact fields are the t-independent part
+BurgersUF(par, C, withT) ==
+  LET s == RoyField([k \in DOMAIN par \ {"u_t"} |-> par[k]], "u", "sin", "cos", "cos", "cos", C)
+  IN  IF withT THEN JAdd(s, RoyTerm(par, "u", "t", "cos", C.t, PN(par, "L"))) ELSE s
+BurgersVF(par, C, withT) ==
+  LET s == RoyField([k \in DOMAIN par \ {"v_t"} |-> par[k]], "v", "cos", "sin", "sin", "sin", C)
+  IN  IF withT THEN JAdd(s, RoyTerm(par, "v", "t", "sin", C.t, PN(par, "L"))) ELSE s
+
+\* ------------------------------------------------------------------ dispatch
+HeatSols == {"heateq_1d_steady_const", "heateq_2d_steady_const", "heateq_3d_steady_const",
+             "heateq_1d_steady_var", "heateq_2d_steady_var", "heateq_3d_steady_var",
+             "heateq_1d_unsteady_const", "heateq_2d_unsteady_const", "heateq_3d_unsteady_const",
+             "heateq_1d_unsteady_var", "heateq_2d_unsteady_var", "heateq_3d_unsteady_var"}
+CartEuler == {"euler_1d", "euler_2d", "euler_3d", "euler_transient_1d", "euler_transient_2d", "euler_transient_3d"}
+CartNS    == {"navierstokes_2d_compressible", "navierstokes_3d_compressible"}
+AxiEuler  == {"axisymmetric_euler", "axi_euler_transient"}
+AxiNS     == {"axisymmetric_navierstokes_compressible", "axi_cns_transient"}
+SpaceDim(sol) ==
+  CASE sol \in {"heateq_1d_steady_const", "heateq_1d_steady_var", "heateq_1d_unsteady_const", "heateq_1d_unsteady_var",
+                "euler_1d", "euler_transient_1d"} -> 1
+    [] sol \in {"heateq_3d_steady_const", "heateq_3d_steady_var", "heateq_3d_unsteady_const", "heateq_3d_unsteady_var",
+                "euler_3d", "euler_transient_3d", "navierstokes_3d_compressible"} -> 3
+    [] OTHER -> 2
+
+Undefined == <<>>
+\* which equation a source-term name denotes: index 0 mass, 1..3 momentum, 4 energy
+EqOf(fn) == CASE fn = "source_rho" -> 0
+              [] fn \in {"source_rho_u", "source_u"} -> 1
+              [] fn \in {"source_rho_v", "source_v"} -> 2
+              [] fn \in {"source_rho_w", "source_w"} -> 3
+              [] fn \in {"source_rho_e", "source_e"} -> 4
+              [] OTHER -> 9
+FieldOf(F, fn) == CASE fn = "exact_rho" -> F.rho [] fn = "exact_u" -> F.u[1] [] fn = "exact_v" -> F.u[2]
+                    [] fn = "exact_w" -> F.u[3] [] fn = "exact_p" -> F.p
+GradFieldOf(F, fn) == CASE fn = "grad_rho" -> F.rho [] fn = "grad_u" -> F.u[1] [] fn = "grad_v" -> F.u[2]
+                        [] fn = "grad_w" -> F.u[3] [] fn = "grad_p" -> F.p
+
+\* the expected value: a number, or Undefined when the oracle does not cover this evaluator
+\* variant: judge a known-deviating evaluator against the system it was actually derived from
+Expected(sol, par, vec, fn, sig, args, cb, variant) ==
+  LET a  == args[1]
+      di == args[2]
+      nd == SpaceDim(sol)
+      C  == Coords(a, nd)
+  IN
+  CASE sol \in HeatSols ->
+         IF fn = "source_t" THEN HeatSource(par, C)
+         ELSE IF fn = "exact_t" THEN JV(HeatT(par, C)) ELSE Undefined
+    [] sol \in CartEuler \cup CartNS ->
+         LET F == CartFields(par, C)
+             g == PN(par, "Gamma")
+             viscous == sol \in CartNS
+             mu == JConst(P0(par, "mu"))
+             T  == JDiv(F.p, JScale(P0(par, "R"), F.rho))
+             eq == EqOf(fn)
+         IN  IF fn \in {"exact_rho", "exact_u", "exact_v", "exact_w", "exact_p"} THEN JV(FieldOf(F, fn))
+             ELSE IF fn \in {"grad_rho", "grad_u", "grad_v", "grad_w", "grad_p"} THEN
+                    IF args[3] = 0 THEN JG(GradFieldOf(F, fn), 1)          \* 1D: d/dx
+                    ELSE IF di \in 1..nd THEN JG(GradFieldOf(F, fn), di) ELSE NNeg(N1)
+             ELSE IF eq = 0 THEN EulerMass(F)
+             ELSE IF eq \in 1..3 THEN (IF viscous THEN NSMom(F, mu, StokesLambda(mu), eq) ELSE EulerMom(F, eq))
+             ELSE IF eq = 4 THEN (IF viscous THEN NSEnergy(F, g, mu, StokesLambda(mu), JConst(P0(par, "k")), T) ELSE EulerEnergy(F, g))
+             ELSE Undefined
+    [] sol \in AxiEuler \cup AxiNS ->
+         LET F == AxiFields(sol, par, C)
+             g == PN(par, "Gamma")
+             R == C.x
+             viscous == sol \in AxiNS
+             mu == JConst(P0(par, "mu"))
+             T  == JDiv(F.p, JScale(P0(par, "R"), F.rho))
+         IN  CASE fn = "exact_rho" -> JV(F.rho) [] fn = "exact_p" -> JV(F.p)
+               [] fn = "exact_u" -> JV(F.u[1]) [] fn = "exact_w" -> JV(F.u[2])
+               [] fn = "source_rho" -> AxiMass(F, R)
+               [] fn \in {"source_rho_u", "source_u"} ->
+                    IF ~viscous THEN AxiMom(F, R, 1)
+                    ELSE IF variant THEN VarAxiNSMomR(F, R, mu) ELSE AxiNSMomR(F, R, mu)
+               [] fn \in {"source_rho_w", "source_w"} ->
+                    IF ~viscous THEN AxiMom(F, R, 2)
+                    ELSE IF variant THEN VarAxiNSMomZ(F, R, mu) ELSE AxiNSMomZ(F, R, mu)
+               [] fn \in {"source_rho_e", "source_e"} ->
+                    IF ~viscous THEN AxiEnergy(F, R, g)
+                    ELSE IF variant THEN VarAxiNSEnergy(F, R, g, mu, JConst(P0(par, "k")), T)
+                    ELSE AxiNSEnergy(F, R, g, mu, JConst(P0(par, "k")), T)
+               [] OTHER -> Undefined
+    [] sol = "laplace_2d" ->
+         IF fn = "exact_phi" THEN JV(LaplacePhi(par, C))
+         ELSE IF fn = "source_f" THEN Laplacian(LaplacePhi(par, C)) ELSE Undefined
+    [] sol = "burgers_equation" ->
+         \* the public source evaluators are the transient inviscid ones (C04): no viscous term
+         LET u == BurgersUF(par, C, Len(a) > 2) v == BurgersVF(par, C, Len(a) > 2) nu == N0
+         IN  CASE fn = "exact_u" -> JV(u) [] fn = "exact_v" -> JV(v)
+               [] fn = "source_u" -> BurgersU(u, v, nu) [] fn = "source_v" -> BurgersV(u, v, nu)
+               [] OTHER -> Undefined
+    [] OTHER -> Undefined
+
+\* known deviations for which the exact variant system is recorded in the specification
+HasVariant(sol, fn) ==
+  \/ sol = "axi_cns_transient" /\ fn \in {"source_u", "source_w", "source_e"}
+  \/ sol = "axisymmetric_navierstokes_compressible" /\ fn \in {"source_rho_u", "source_rho_w"}
+
+\* tolerance exponent: |got - expected| <= 2^KBits u_p mag   (DESIGN.md section 7)
+KBits == IF "KBITS" \in DOMAIN IOEnv THEN (CHOOSE k \in 0..40 : ToString(k) = IOEnv.KBITS) ELSE 14
+
+\* known deviations (known_findings.json, keys <<solution, evaluator>>): not judged here
+KnownKeys == IF "KNOWN" \in DOMAIN IOEnv /\ IOEnv.KNOWN # "" THEN JsonDeserialize(IOEnv.KNOWN) ELSE <<>>
+IsKnown(sol, fn) == \E i \in 1..Len(KnownKeys) : KnownKeys[i][1] = sol /\ KnownKeys[i][2] = fn
+
+\* known deviations are judged against their recorded variant (when one is recorded: the result must
+\* still match it, so only the listed deviation is tolerated); everything else against the property
+OracleAccept(p, sol, par, vec, fn, sig, args, cb, ret) ==
+  LET known == IsKnown(sol, fn)
+      e == Expected(sol, par, vec, fn, sig, args, cb, known)
+  IN  \/ Len(e) = 0
+      \/ NClose(NFromStr(ret), e, KBits, p)
+      \/ known /\ ~HasVariant(sol, fn)
 =============================================================================
